@@ -228,6 +228,70 @@ class EFalsyResults(EFR):
             yield nothing(i + size + 7)     # a block of one value gives None, then 0, "", ...
 
 
+class ERet(Content):
+    """Element whose request / compute hands out its results in a container of the given kind
+    (cfg.ret of spec/FillRequest.tla).  It owns ONE results list for its whole life: every fill rewrites it in
+    place, reset empties it in place; "own" hands out that very list, "iter" an iterator over it."""
+
+    def __init__(self, m=1, ret="gen"):
+        Content.__init__(self, m)
+        self.ret = ret
+        self.own = []
+        self.handed = []         # every container handed out (the element keeps them and may change them)
+
+    def _fill(self, v):
+        Content._fill(self, v)
+        self.own[:] = [(i, tuple(self.content)) for i in range(1, self.m + 1)]
+
+    def _results(self):
+        self.req_sizes.append(self._since)
+        self._since = 0
+        ret = self.ret
+        if ret == "gen":
+            return ((i, tuple(self.content)) for i in range(1, self.m + 1))
+        if ret == "fresh":
+            out = list(self.own)
+            self.handed.append(out)
+            return out
+        if ret == "tuple":
+            return tuple(self.own)
+        if ret == "iter":
+            return iter(self.own)
+        if ret == "own":
+            return self.own
+        raise ValueError(ret)
+
+    def _reset(self):
+        del self.own[:]
+        # a list handed out earlier still belongs to the element: it empties those as well
+        for out in self.handed:
+            del out[:]
+        Content._reset(self)
+
+
+class ERetFR(ERet):
+    def fill(self, v):
+        self._fill(v)
+
+    def request(self):
+        return self._results()
+
+    def reset(self):
+        self._reset()
+
+
+class ERetFC(ERet):
+    def fill(self, v):
+        self._fill(v)
+
+    def compute(self):
+        return self._results()
+
+    def reset(self):
+        self._reset()
+
+
+RET_KINDS = {"fr": ERetFR, "fc": ERetFC}
 KINDS = {"fc": EFC, "fr": EFR, "run": ERun, "both": EBoth, "frc": ECustom}
 
 
